@@ -142,6 +142,9 @@ pub struct HeldReady {
     pub instance: u32,
     pub released: bool,
     pub since_ms: u64,
+    /// released with a readiness *error* (reported once, on the next poll_ready)
+    pub fail: bool,
+    pub fail_reported: bool,
     waker: Option<Waker>,
 }
 
@@ -174,6 +177,16 @@ impl InnerState {
         let h = &mut self.held[idx];
         h.released = true;
         h.waker.take()
+    }
+    /// The held instance #idx answers its next poll_ready with an error.
+    pub fn release_ready_err(&mut self, idx: usize) -> Option<Waker> {
+        let h = &mut self.held[idx];
+        h.released = true;
+        h.fail = true;
+        h.waker.take()
+    }
+    pub fn held_failed(&self) -> usize {
+        self.held.iter().filter(|h| h.fail_reported).count()
     }
     /// Open the gate of call k; returns the waker to call (outside the lock).
     pub fn open_gate(&mut self, k: usize, out: Out) -> Option<Waker> {
@@ -250,7 +263,7 @@ impl tower::Service<Req> for GatedInner {
                 Some(i) => Some(i),
                 None if !g.calls.is_empty() && !self.ready => {
                     let now = g.now_ms();
-                    g.held.push(HeldReady { instance: self.instance, released: false, since_ms: now, waker: None });
+                    g.held.push(HeldReady { instance: self.instance, released: false, since_ms: now, fail: false, fail_reported: false, waker: None });
                     Some(g.held.len() - 1)
                 }
                 None => None,
@@ -261,6 +274,13 @@ impl tower::Service<Req> for GatedInner {
                     let now = g.now_ms();
                     g.ready_log.push((self.instance, now, ReadyAns::Pending));
                     return Poll::Pending;
+                }
+                if g.held[i].fail && !g.held[i].fail_reported {
+                    g.held[i].fail_reported = true;
+                    let now = g.now_ms();
+                    g.ready_log.push((self.instance, now, ReadyAns::Err(5)));
+                    let id = g.fresh_serial();
+                    return Poll::Ready(Err(InnerErr { id, kind: 5 }));
                 }
             }
         }
